@@ -129,6 +129,7 @@ func c14Vars(log *[]string, jfName string) jet.VarMap {
 	vars.Set("pobj", &c14Methods{rec: r, Tag: "p"})
 	vars["nilv"] = reflect.Value{}
 	vars.Set("mm", map[string]interface{}{"k": "v"})
+	vars.Set("bv", []byte("  By Tes  "))
 	vars.Set("sv", "strvar")
 	vars.Set("iv", 7)
 	return vars
@@ -198,6 +199,7 @@ func genC14(t *rapid.T) c14Case {
 			`{{ f2("a", _) }}`, `{{ "a" | f3(_, _, "c") }}`,
 			// built-ins handed values of the wrong kind (also where treating them as 0 would give a valid range)
 			`{{ range ints("2", 5) }}x{{ end }}`, `{{ range ints(-2, "x") }}x{{ end }}`, `{{ range ints(true, 3) }}x{{ end }}`, `{{ range "1" | ints: 4 }}x{{ end }}`, `{{ range ints(sv, iv) }}x{{ end }}`,
+			`{{ upper(nilv) }}`, `{{ nil | trimSpace }}`, `{{ html(mm) }}`, `{{ lower(mm.missing) }}`, `{{ url(nilv) }}`, `{{ isset() }}`, `{{ trimSpace(iv, iv) }}`,
 			`{{ repeat("a", "3") }}`, `{{ replace("a", "b") }}`, `{{ len(iv) }}`, `{{ hasPrefix("a") }}`, `{{ lower(1.5) }}`,
 		}).Draw(t, "misuse")
 		return c14Case{Kind: "misuse", Tpl: tpl, Expr: tpl}
@@ -491,6 +493,9 @@ func genC14Builtin(t *rapid.T) c14Case {
 	js := func(v interface{}) string { b, _ := json.Marshal(v); return string(b) }
 	list := []bi{
 		{"{{ lower(" + q(s) + ") }}", esc(strings.ToLower(s))},
+		// arguments that are not strings but convert to the parameter type
+		{"{{ trimSpace(bv) }}", "By Tes"}, {"{{ bv | upper }}", "  BY TES  "}, {"{{ lower: bv }}", "  by tes  "}, {"{{ hasPrefix(bv, \"  By\") }}", "true"},
+		{"{{ json(" + q(s) + ") | upper }}", esc(strings.ToUpper(js(s)))},
 		{"{{ " + q(s) + " | upper }}", esc(strings.ToUpper(s))},
 		{"{{ hasPrefix(" + q(s) + ", " + q(p) + ") }}", fmt.Sprint(strings.HasPrefix(s, p))},
 		{"{{ " + q(s) + " | hasSuffix: " + q(p) + " }}", fmt.Sprint(strings.HasSuffix(s, p))},
